@@ -20,16 +20,16 @@ DOCS = {
     "unparsable": '<mjml><mj-body><mj-section></mj-body></mjml>',
     "unreadable": None,
 }
-OUTS = ["stdout", "s", "file", "existing", "unwritable", "file+s", "existing+s"]
-TTLS = ["", "0s", "-1s", "1ns", "1ms", "10m", "2562047h"]
-IVS = ["", "0s", "-5s", "1ns", "1h"]
+OUTS = ["stdout", "s", "file", "existing", "unwritable", "file+s", "existing+s", "existing+long"]
+TTLS = ["", "0s", "-1s", "1ns", "1us", "1ms", "10m", "2562047h"]
+IVS = ["", "0s", "-5s", "1ns", "100us", "1h"]
 
 
 def dur_ns(s):
     if s == "":
         return 0
-    m = re.fullmatch(r"(-?\d+)(ns|ms|s|m|h)", s)
-    mult = {"ns": 1, "ms": 10 ** 6, "s": 10 ** 9, "m": 60 * 10 ** 9, "h": 3600 * 10 ** 9}[m.group(2)]
+    m = re.fullmatch(r"(-?\d+)(ns|us|ms|s|m|h)", s)
+    mult = {"ns": 1, "us": 1000, "ms": 10 ** 6, "s": 10 ** 9, "m": 60 * 10 ** 9, "h": 3600 * 10 ** 9}[m.group(2)]
     return int(m.group(1)) * mult
 
 
